@@ -190,8 +190,7 @@ def run(ctx):
                 rc.TRACE = None
 
     # ---- special public encoders that repeat the wrapping themselves ---------------------------
-    work += 1
-    if ctx.mine(work):
+    if ctx.shard == 0:  # deterministic: `work` differs between shards (each generates its own random type list)
         DataError = p.DataError
 
         def must_raise(label, fn, *a):
